@@ -454,11 +454,48 @@ func (i *interpreter) trackAlloc(fr *frame, instr *ssa.Alloc, cell *value) {
 
 func tsVar(e *event) *smt.Term { return smt.Var(fmt.Sprintf("ts!%d", e.id), smt.Int) }
 
+// relevantEvents drops lock/unlock events of mutexes that only one thread ever
+// touches (they constrain nothing) and returns, per kept event, its kept
+// program-order predecessor.
+func (i *interpreter) relevantEvents() ([]*event, map[*event]*event) {
+	users := map[int]map[int]bool{}
+	for _, e := range i.events {
+		if e.kind == "lock" || e.kind == "unlock" {
+			if users[e.obj] == nil {
+				users[e.obj] = map[int]bool{}
+			}
+			users[e.obj][e.th] = true
+		}
+	}
+	keep := func(e *event) bool {
+		if e.kind == "lock" || e.kind == "unlock" {
+			return len(users[e.obj]) > 1
+		}
+		return true
+	}
+	var out []*event
+	prev := map[*event]*event{}
+	for _, e := range i.events {
+		if !keep(e) {
+			continue
+		}
+		out = append(out, e)
+		p := e.prev
+		for p != nil && !keep(p) {
+			p = p.prev
+		}
+		if p != nil {
+			prev[e] = p
+		}
+	}
+	return out, prev
+}
+
 // scheduleConstraints asserts, in the current solver scope, the constraints
 // that every consistent interleaving of the logged events satisfies.
 func (i *interpreter) scheduleConstraints() {
 	s := i.solver
-	evs := i.events
+	evs, prev := i.relevantEvents()
 	var all []*smt.Term
 	for _, e := range evs {
 		s.Declare(fmt.Sprintf("ts!%d", e.id), smt.Int)
@@ -475,8 +512,8 @@ func (i *interpreter) scheduleConstraints() {
 		}
 	}
 	for _, e := range evs {
-		if e.prev != nil {
-			s.Assert(smt.IntCmp("<", tsVar(e.prev), tsVar(e)))
+		if p := prev[e]; p != nil {
+			s.Assert(smt.IntCmp("<", tsVar(p), tsVar(e)))
 		}
 		if e.kind == "spawn" {
 			if b := begin[e.obj]; b != nil {
@@ -546,6 +583,29 @@ func (i *interpreter) scheduleConstraints() {
 // of the current path (data path condition included).
 func (i *interpreter) schedQuery(cond *smt.Term) (smt.Result, map[string]string, []string) {
 	s := i.solver
+	// The schedule constraints and cond mention time stamps only, so the
+	// verdict depends on the event structure alone: unsat verdicts are cached
+	// by structure (sat ones are re-solved to obtain a model with the data).
+	var sig strings.Builder
+	rel0, prev0 := i.relevantEvents()
+	for _, e := range rel0 {
+		p := -1
+		if q := prev0[e]; q != nil {
+			p = q.id
+		}
+		m := -1
+		if e.match != nil {
+			m = e.match.id
+		}
+		fmt.Fprintf(&sig, "%d:%d:%s:%d:%d:%d:%d;", e.id, e.th, e.kind, e.obj, e.n, p, m)
+	}
+	sig.WriteString(cond.S)
+	key := sig.String()
+	if i.schedCache[key] {
+		i.schedHits++
+		return smt.Unsat, nil, nil
+	}
+	defer func() {}()
 	s.Push()
 	i.scheduleConstraints()
 	s.Assert(cond)
@@ -558,7 +618,8 @@ func (i *interpreter) schedQuery(cond *smt.Term) (smt.Result, map[string]string,
 		model = i.readModel()
 		// read the witness order of marks
 		var vars []*smt.Term
-		for _, e := range i.events {
+		rel, _ := i.relevantEvents()
+		for _, e := range rel {
 			vars = append(vars, tsVar(e))
 		}
 		if mv, err := s.Model(vars); err == nil {
@@ -567,7 +628,7 @@ func (i *interpreter) schedQuery(cond *smt.Term) (smt.Result, map[string]string,
 				e *event
 			}
 			var tl []te
-			for _, e := range i.events {
+			for _, e := range rel {
 				tl = append(tl, te{mv[tsVar(e).S].I, e})
 			}
 			for a := 1; a < len(tl); a++ {
@@ -583,6 +644,12 @@ func (i *interpreter) schedQuery(cond *smt.Term) (smt.Result, map[string]string,
 		}
 	}
 	s.Pop()
+	if r == smt.Unsat {
+		if i.schedCache == nil {
+			i.schedCache = map[string]bool{}
+		}
+		i.schedCache[key] = true
+	}
 	return r, model, order
 }
 
@@ -603,6 +670,10 @@ func (i *interpreter) requireOrder(a, b string) {
 			r, model, order := i.schedQuery(smt.IntCmp("<", tsVar(eb), tsVar(ea)))
 			switch r {
 			case smt.Sat:
+				if model == nil {
+					model = map[string]string{}
+				}
+				model["hold:"+a] = b
 				v := Violation{Kind: "order", Label: fmt.Sprintf("%s before %s", a, b), Key: fmt.Sprintf("order|%s|%s", a, b),
 					Detail: "a consistent schedule runs " + b + " before " + a, Model: model, Path: append([]int{}, i.path...), Trace: order}
 				i.res.Violations = append(i.res.Violations, v)
@@ -630,7 +701,9 @@ func (i *interpreter) requireJoined(ret string) {
 		}
 		if e.kind == "mark" || e.kind == "read" || e.kind == "write" {
 			late = append(late, smt.IntCmp("<", tsVar(er), tsVar(e)))
-			names = append(names, e.name)
+			if e.kind == "mark" {
+				names = append(names, e.name)
+			}
 		}
 	}
 	if len(late) == 0 {
@@ -639,6 +712,14 @@ func (i *interpreter) requireJoined(ret string) {
 	r, model, order := i.schedQuery(smt.Or(late...))
 	switch r {
 	case smt.Sat:
+		if model == nil {
+			model = map[string]string{}
+		}
+		for _, n := range names {
+			if n != ret {
+				model["hold:"+n] = ret
+			}
+		}
 		v := Violation{Kind: "join", Label: "spawned work finished before return", Key: "join|" + ret,
 			Detail: "a consistent schedule has goroutine activity after the call returned", Model: model, Path: append([]int{}, i.path...), Trace: order}
 		i.res.Violations = append(i.res.Violations, v)
